@@ -59,6 +59,12 @@ func cnt2(sh []int) int {
 
 func newCoordGen(prefix string, stride, present int) *coordGen {
 	cg := &coordGen{stride: stride, prefix: prefix}
+	if stride == 0 && present > 0 {
+		// NoLayout: no coordinate of non-zero length fits; the first one present is the offender
+		cg.bad = 0
+		cg.badLen = Count(prefix+".badlen", 1, 7)
+		return cg
+	}
 	cg.bad = Count(prefix+".bad", -1, present-1)
 	if cg.bad >= 0 {
 		cg.badLen = Count(prefix+".badlen", 0, 7)
@@ -126,11 +132,15 @@ func tagLayout(lay geom.Layout) {
 	}
 }
 
-// lim: under NoLayout only empty geometries are inside the property's quantifier, so the nested
-// arrays are restricted to the empty ones.
+// lim: under NoLayout only empty geometries are well formed; the nested arrays are restricted to the
+// empty ones plus those holding one (necessarily offending) coordinate per part, which must be
+// rejected with a stride mismatch like under any other layout.
 func lim(lay geom.Layout, n int) int {
 	if lay == geom.NoLayout {
-		return 0
+		if n > 1 {
+			return 1
+		}
+		return n
 	}
 	return n
 }
